@@ -276,6 +276,23 @@ def run(ctx):
         if not held:
             run.finding(Finding(R7, fid, "the method acts before it has tested the token: with a wrong or missing token it still fails with the mask error, but its effect has already happened", site=c.site_of(f, path[-1]), detail=cfg.describe_path(f, path)))
 
+    R8 = "C14.R8"
+    run.rule(R8, "an Owner method that hands the token to a thread of its own tests it first: start_updater spawns the updater only on the Ok edge of keychain(mask)", floor=1)
+    su = ctx.fn(c.API + "owner::Owner::<L, C, K>::start_updater")
+    if su is None:
+        run.error("C14.R8: Owner::start_updater not found")
+    else:
+        spawns = {b for b, t in su.calls() if (t.get("f") or "").endswith(("Builder::spawn", "thread::spawn", "thread::spawn_scoped"))}
+        ok8 = set()
+        for b, _t in cfg.find_calls(su, c.WB + "keychain"):
+            ok8 |= cfg.call_guard(su, b).ok
+        held = bool(spawns) and bool(ok8) and cfg.must_pass(su, ok8, spawns)[0]
+        if not spawns:
+            run.error("C14.R8: thread spawn not found in start_updater")
+        run.instance(R8, {"fn": "Owner::start_updater", "obligation": "the updater thread is spawned only after keychain(mask) Ok", "token tests": len(ok8)}, held=held)
+        if not held:
+            run.finding(Finding(R8, su.id, "start_updater does not test the token: with a wrong or missing token it returns Ok, the spawned thread fails at its first refresh and leaves the 'updater running' flag set, after which the rightful owner's refreshes are skipped", site=su.loc()))
+
     R5 = "C14.R5"
     run.rule(R5, "closed means closed: wallet_inst() errs on None; close_wallet clears the backend", floor=3)
     wi = [f for k, f in db.fns.items() if "DefaultLCProvider" in k and k.endswith("::wallet_inst") and "WalletLCProvider" in k]
